@@ -294,13 +294,18 @@ class FnView:
             self._ks[key] = r
         return r
 
-    def def_reaches_killing(self, l, db, di, at, proj=()):
+    def def_reaches_killing(self, l, db, di, at, proj=(), fields_only=False):
         """Reaching-definition test with kills: the definition of (part of) local l at (db, di) reaches the
-        use at `at` along some path on which the part being read is not overwritten."""
+        use at `at` along some path on which the part being read is not overwritten. With fields_only, only assignments
+        to the field path itself (or a prefix of it) kill, not re-definitions of the whole local (whose new value may be
+        the old one handed through a helper)."""
         if at is None:
             return True
         ub, ui = at
         kills = [(kb, ki) for kb, ki in self.kill_sites(l, tuple(proj)) if (kb, ki) != (db, di)]
+        if fields_only:
+            whole = set(self.whole_defs(l))
+            kills = [k for k in kills if k not in whole]
         if not kills:
             return self.def_reaches(db, di, at)
         if db == ub and di < ui and not any(kb == db and di < ki < ui for kb, ki in kills):
@@ -531,6 +536,9 @@ class FnView:
                 if rest is None:
                     continue
                 out |= self._origins_call(t, rest, taint, visiting, d[1], (d[1], len(self.blocks[d[1]]["s"])))
+        # element reads of a growable container: values pushed / inserted / appended to it so far
+        if proj and len(visiting) < 40:
+            out |= self._container_write_origins(l, proj, taint, visiting, at)
         # taint mode: writes through references that (by provenance) point into the value being read
         if taint and len(visiting) < 4 and out:
             out |= self._alias_write_origins(l, proj, out, visiting, at)
@@ -539,6 +547,37 @@ class FnView:
             out |= self._closure_write_origins(l, proj, taint, at)
         if not visiting - {(l, proj, at)}:
             self._origin_cache[key] = out
+        return out
+
+    _PUSH_RE = re.compile(r"^std::(?:vec::Vec|collections::VecDeque)::(push|push_back|push_front|insert|extend_from_slice|append)$"
+                          r"|^<std::vec::Vec<.*> as std::iter::Extend<.*>>::(extend)$")
+
+    def _container_write_origins(self, l, proj, taint, visiting, at):
+        """`v.push(x)` / `v.insert(i, x)` / `v.extend(it)` / `v.append(&mut w)` executed before `at` on the Vec local `l`:
+        an element read `v[..].proj` may yield x.proj (resp. the elements of it / w)."""
+        pw = getattr(self, "_pw", None)
+        if pw is None:
+            pw = []
+            for b, t in self.iter_calls():
+                m = self._PUSH_RE.search(mname(t))
+                if not m or not t["args"] or t["args"][0]["k"] not in ("copy", "move"):
+                    continue
+                r = t["args"][0]["pl"]["l"]
+                tgt = set()
+                for d in self.defs().get(r, []):
+                    if d[0] == "s" and d[3]["rv"]["r"] == "ref" and not d[3]["rv"]["pl"]["p"]:
+                        tgt.add(d[3]["rv"]["pl"]["l"])
+                pw.append((b, t, tgt, m.group(1) or m.group(2)))
+            self._pw = pw
+        out = set()
+        for b, t, tgt, kind in pw:
+            if l not in tgt or not str(self.local_ty(l)).startswith(("std::vec::Vec<", "std::collections::VecDeque<")):
+                continue
+            n = len(self.blocks[b]["s"])
+            if at is not None and not self.def_reaches(b, n, at):
+                continue
+            val = t["args"][-1]
+            out |= self._origins_op(val, proj, taint, visiting | {(l, proj, at)}, (b, n))
         return out
 
     def _alias_write_origins(self, l, proj, cur, visiting, at):
@@ -820,6 +859,8 @@ class FnView:
             r = self._vec_macro_elements(t, proj, taint, visiting, at)
             if r:
                 return r
+        if proj and callee in ("std::vec::Vec::new", "std::vec::Vec::with_capacity"):
+            return set()     # an empty vector has no elements: element reads see what was pushed (see _origins_local)
         if _UNION_ARGS_RE.search(callee) and len(t["args"]) >= 2:
             return (self._origins_op(t["args"][0], proj, taint, visiting, at)
                     | self._origins_op(t["args"][1], proj, taint, visiting, at))
